@@ -934,7 +934,16 @@ func vC35GenCase(r *vRand) *vC35Case {
 		probeTx = vC35GenTxn(r, access)
 	}
 	c.group[c.gi] = probeTx
-	// creations before the probing call
+	vC35SetCreates(c)
+	if !vC35GenProbe(r, c) {
+		return nil
+	}
+	return c
+}
+
+
+// creations before the probing call, the id of the probing app
+func vC35SetCreates(c *vC35Case) {
 	newApps, newAsas := 0, 0
 	for i := 0; i < c.gi; i++ {
 		t := c.group[i]
@@ -948,14 +957,121 @@ func vC35GenCase(r *vRand) *vC35Case {
 			newAsas++
 		}
 	}
-	c.appid = probeTx.ap.id
+	c.appid = c.group[c.gi].ap.id
 	if c.appid == 0 {
 		c.appid = vC35NewApps[newApps]
 	}
-	if !vC35GenProbe(r, c) {
-		return nil
+}
+
+// The creation-time rule of EvalContract: while an app is being CREATED, its own boxes are available
+// only through references with Index 0 and a non-empty name (tx.Boxes or tx.Access); a reference
+// with Index >= 1 names a box of the foreign app / tx.Access app element it points at, never a box of
+// the new app.  One scenario = a creating call mixing app references and box references of both
+// kinds (plus empty references = quota); one case per box name that appears anywhere in the group
+// (and one that does not), each probing the NEW app's own box of that name.
+func vC35GenCreateBoxCases(r *vRand) []*vC35Case {
+	base := &vC35Case{}
+	base.version = uint64(8 + r.Intn(int(LogicVersion)-7))
+	base.forbidLow = r.Intn(6) == 0
+	access := base.version >= sharedResourcesVersion && r.Intn(3) > 0
+	ap := &vC35Appl{}
+	names := [][]byte{[]byte("a"), []byte("b"), []byte("cc")}
+	pickName := func() []byte {
+		if r.Intn(6) == 0 {
+			return nil
+		}
+		return names[r.Intn(len(names))]
 	}
-	return c
+	if access {
+		ap.useAccess = true
+		var apps []uint64
+		for i, n := 0, 1+r.Intn(3); i < n; i++ {
+			switch r.Intn(5) {
+			case 0:
+				ap.access = append(ap.access, vC35Ref{kind: 'd', a: vC35PlainAcct(r)})
+			case 1:
+				ap.access = append(ap.access, vC35Ref{kind: 's', a: vC35AssetID(r)})
+			default:
+				ap.access = append(ap.access, vC35Ref{kind: 'p', a: vC35AppID(r)})
+				apps = append(apps, uint64(len(ap.access)))
+			}
+		}
+		for i, n := 0, 1+r.Intn(4); i < n; i++ {
+			idx := uint64(0)
+			if len(apps) > 0 && r.Intn(2) == 0 {
+				idx = apps[r.Intn(len(apps))]
+			}
+			nm := pickName()
+			if idx == 0 && nm == nil {
+				ap.access = append(ap.access, vC35Ref{kind: 'e'})
+			} else {
+				ap.access = append(ap.access, vC35Ref{kind: 'b', a: idx, name: nm})
+			}
+		}
+	} else {
+		for i, n := 0, 1+r.Intn(3); i < n; i++ {
+			ap.fapps = append(ap.fapps, vC35AppID(r))
+		}
+		for i, n := 0, 1+r.Intn(2); i < n; i++ { // MaxAppBoxReferences is not enforced here (no WellFormed)
+			ap.boxes = append(ap.boxes, vC35Box{idx: uint64(r.Intn(len(ap.fapps) + 1)), name: pickName()})
+		}
+		if r.Intn(2) == 0 {
+			ap.boxes = append(ap.boxes, vC35Box{idx: uint64(1 + r.Intn(len(ap.fapps))), name: names[r.Intn(len(names))]})
+		}
+	}
+	n := 1 + r.Intn(3)
+	for i := 0; i < n; i++ {
+		base.group = append(base.group, vC35GenTxn(r, access))
+	}
+	base.gi = r.Intn(n)
+	base.group[base.gi] = &vC35Txn{typ: "appl", snd: vC35PlainAcct(r), ap: ap}
+	vC35SetCreates(base)
+	// every box name of any reference of the group, and one nobody names
+	seen := map[string]bool{}
+	var probeNames [][]byte
+	add := func(nm []byte) {
+		if len(nm) > 0 && !seen[string(nm)] {
+			seen[string(nm)] = true
+			probeNames = append(probeNames, nm)
+		}
+	}
+	for _, t := range base.group {
+		if t.typ == "appl" {
+			for _, b := range t.ap.boxes {
+				add(b.name)
+			}
+			for _, rr := range t.ap.access {
+				if rr.kind == 'b' {
+					add(rr.name)
+				}
+			}
+		}
+	}
+	add([]byte("zz"))
+	var out []*vC35Case
+	for _, nm := range probeNames {
+		c := *base
+		var sb strings.Builder
+		ops := []interface{}{vSym("box")}
+		switch r.Intn(3) {
+		case 0:
+			ops = append(ops, vL(vSym("create"), uint64(0), nm, uint64(24)))
+			sb.WriteString(fmt.Sprintf("byte 0x%x; int 24; box_create; pop; ", nm))
+		case 1:
+			ops = append(ops, vL(vSym("read"), uint64(0), nm, 0))
+			sb.WriteString(fmt.Sprintf("byte 0x%x; box_len; pop; pop; ", nm))
+		case 2:
+			ops = append(ops, vL(vSym("del"), uint64(0), nm, 0))
+			sb.WriteString(fmt.Sprintf("byte 0x%x; box_del; pop; ", nm))
+		}
+		sb.WriteString("byte \"x\"; log; int 1")
+		c.kind = "box"
+		c.nops = 1
+		c.probe = ops
+		c.src = sb.String()
+		out = append(out, &c)
+	}
+	return out
 }
 
 // ---------------------------------------------------------------- running a case on the real evaluator
@@ -1220,6 +1336,13 @@ func TestVerifC35(t *testing.T) {
 	}
 	emit(vC35ZeroWitness())
 	for i := 0; i < n; i++ {
+		if i%12 == 5 {
+			for _, c := range vC35GenCreateBoxCases(rnd) {
+				stats["creation_box_rule_cases"]++
+				emit(c)
+			}
+			continue
+		}
 		c := vC35GenCase(rnd)
 		if c == nil {
 			continue
